@@ -259,7 +259,18 @@ class Spec:
                 o.raw = raw
             method = "send_data"
         else:
+            proj0 = H.quiescent_projection(st.conn[x])
             o = H.call(st.conn[x], method, *args, **kw)
+            if o.kind == "raise":
+                # "calls that raise contribute nothing": windows, ids, settings, compression context, buffers are as before
+                # (a refusal out of a state machine closes that machine - the known finding - so streams / connection
+                # state are left out of the comparison then)
+                diff = H.projection_diff(proj0, H.quiescent_projection(st.conn[x]))
+                if o.via_fsm:
+                    diff = [d for d in diff if d not in ("connection state", "live streams")]
+                if diff:
+                    bad("raising-call-changed-state", "%s raised %s (%s) but changed: %s" % (base, o.exc_name, o.msg, ", ".join(diff)),
+                        call=method, exc=o.exc_name, changed=",".join(diff))
         if o.kind == "raise":
             if o.raw:
                 bad("raising-call-emitted-bytes", "%s raised %s but emitted %s" % (base, o.exc_name, o.brief()), call=method)
